@@ -102,16 +102,21 @@ func (r intRes) String() string {
 	return "PANIC"
 }
 
-func runParse(ty int, in []byte) (r intRes) {
+// runParse: a value too large to print is replaced by a marker of the same sign (cases whose exact
+// value is that large are never written as Coq cases)
+func runParse(ty int, in []byte) intRes {
+	r := runParseRaw(ty, in)
+	if r.cls == 0 && r.val.BitLen() > 1<<17 {
+		r.val = new(big.Int).Lsh(big.NewInt(int64(r.val.Sign())), 300)
+	}
+	return r
+}
+
+func runParseRaw(ty int, in []byte) (r intRes) {
 	r.val = new(big.Int)
 	defer func() {
 		if x := recover(); x != nil {
 			r = intRes{cls: 2, val: new(big.Int), err: fmt.Sprint(x)}
-		}
-		// a value too large to print (cases whose exact value is that large are not generated):
-		// keep the class, replace the value by a marker of the same sign
-		if r.cls == 0 && r.val.BitLen() > 1<<17 {
-			r.val = new(big.Int).Lsh(big.NewInt(int64(r.val.Sign())), 300)
 		}
 	}()
 	switch ty {
@@ -911,9 +916,9 @@ func main() {
 	}
 	for _, k := range []int64{1000, 100000, 1000000} {
 		text := fmt.Sprintf("1e%d", k)
-		rr := runParse(0, []byte(text))
+		rr := runParseRaw(0, []byte(text))
 		if rr.cls != 0 || rr.val.Cmp(pow10(k)) != 0 {
-			st.ImplFailures = append(st.ImplFailures, map[string]interface{}{"what": "exponent text not parsed to its exact value", "input": text, "impl": rr.String()})
+			st.ImplFailures = append(st.ImplFailures, map[string]interface{}{"what": "exponent text not parsed to its exact value", "input": text, "impl": fmt.Sprintf("class %d, %d bits", rr.cls, rr.val.BitLen())})
 		}
 		st.Hit("go-oracle:big-exact")
 	}
